@@ -57,6 +57,7 @@ def run(rep, tier):
     from .. import tables as _tables
     _topos = _tables.all_topologies(prog) + [_c08.torpex_topology(prog)] + _c08.circular_topologies(prog)
     _c08.r5_r6(prog, Premise(rep, "R8", "C08"), _topos)
+    nan_clamp_rules(prog, rep)
     c19.r4(prog, Premise(rep, "R7", "C19"))
     # the container the location-set analysis (R6) reasons about
     from . import c18
@@ -128,6 +129,31 @@ def documented_variables(root):
             else:
                 i += 1
     return out
+
+
+def nan_clamp_rules(prog, rep):
+    """Mesh.smoothnl normalises each difference array by its mean, 0.5*m/mean(m), and clamps the
+    result at 1.  For a field that is identically zero (curl_bOverB_x, bxcvx, ... when Bt = 0, as in
+    the shipped analytic examples) that is 0/0 = NaN: the clamp is what keeps NaN out of the
+    smoothed field, so it has to be NaN-absorbing: numpy.where(v < 1.0, v, 1.0) (a comparison with
+    NaN is false) or numpy.fmin(v, 1.0).  numpy.minimum / numpy.clip propagate NaN."""
+    rep.rule("R9", "clamps that stand between a 0/0 and a written field absorb NaN")
+    f = prog.func(MESH, "Mesh.smoothnl")
+    mod = f.module
+    n = 0
+    for st in ast.walk(f.node):
+        if not (isinstance(st, ast.Assign) and isinstance(st.targets[0], ast.Name) and st.targets[0].id.startswith("this_mark") and isinstance(st.value, ast.Call)):
+            continue
+        fn = mod.code(st.value.func)
+        if fn not in ("numpy.where", "numpy.minimum", "numpy.fmin", "numpy.clip", "min", "numpy.nan_to_num"):
+            continue
+        n += 1
+        v = st.targets[0].id
+        t = mod.code(st.value)
+        ok = t in (K("numpy.where(%s < 1.0, %s, 1.0)" % (v, v)), K("numpy.fmin(%s, 1.0)" % v), K("numpy.fmin(1.0, %s)" % v), K("numpy.where(%s < 1, %s, 1)" % (v, v)))
+        rep.ob("R9", "smoothnl: the clamp of `%s` at 1 maps a NaN (0/0 for an identically zero field) to 1" % v, ok, f.site(st),
+               "" if ok else "definite: `%s` propagates NaN into the smoothed field" % t[:60], key="nan-clamp/%s/%d" % (v, sum(1 for x in ast.walk(f.node) if isinstance(x, ast.Assign) and x.lineno < st.lineno and isinstance(x.targets[0], ast.Name) and x.targets[0].id == v and isinstance(x.value, ast.Call))))
+    rep.floor("R9.clamps", n, 8)
 
 
 def written_variables(prog):
